@@ -9,7 +9,68 @@ VERSIONS = ["1.4", "1.5", "2.0", "2.1", "2.2"]
 
 def jobs(tier, seed):
     q = tier == "quick"
-    return [{"seed": seed, "i": i, "streams": 3 if q else 40, "exhaustive_upto": 200 if q else 700} for i in range(32 if q else 96)]
+    out = [{"seed": seed, "i": i, "streams": 3 if q else 40, "exhaustive_upto": 200 if q else 700} for i in range(32 if q else 96)]
+    out += [{"kind": "real-threads", "seed": seed, "i": i, "streams": 4 if q else 30} for i in range(8 if q else 32)]
+    return out
+
+
+def run_real_threads(job):
+    """The same streams through the real reader thread + poll thread of SerialGateway / TCPGateway (thread simulation)."""
+    import faulthandler
+    from ..drive import strict
+    from ..lifetimes import run_threaded_stream
+
+    res = Result()
+    rng = core.rng_for(ID, "real", job["seed"], job["i"])
+    faulthandler.dump_traceback_later(600, exit=True)
+    try:
+        for sn in range(job["streams"]):
+            version = VERSIONS[(sn + job["i"]) % 5]
+            stream = make_stream(rng, version)
+            if len(stream) < 4:
+                continue
+            ref = run_one(version, "async", "lines", stream, None)
+            if ref["crashed"] is not None:
+                continue
+            n = len(stream)
+            for kind in ("tcp", "serial"):
+                how = rng.choice(["whole", "bytes", "tcp120", "random"])
+                cuts = {"whole": [n], "bytes": list(range(1, n + 1)), "tcp120": list(range(120, n, 120)) + [n],
+                        "random": sorted(set(rng.sample(range(1, n), min(5, n - 1)))) + [n] if n > 1 else [n]}[how]
+                state, writes, errs = run_threaded_stream(kind, rng.randint(0, 10**6), stream, cuts, version)
+                res.evals += 1
+                res.count("real_thread_runs")
+                case = {"version": version, "stream_hex": stream.hex(), "cuts": cuts[:40], "seg": how, "run": "real-" + kind}
+                if errs:
+                    res.violation(f"real-threads:{kind}:thread-died:{errs[0][1]}", f"library thread died while receiving the stream: {errs[:2]}", case)
+                    continue
+                if state is None:
+                    res.notes.append("real-thread run could not connect (inconclusive)")
+                    continue
+                got_sent = norm_sent(writes)
+                if strict(state) != strict(ref["state"]):
+                    res.violation(f"real-threads:{kind}:state-differs", f"real threaded {kind} gateway: final state differs from the line-level reference", case)
+                elif sorted(got_sent) != sorted(ref["sent"]):
+                    res.violation(f"real-threads:{kind}:output-multiset-differs", f"real threaded {kind} gateway: emitted {got_sent!r}, reference {ref['sent']!r}", case)
+                elif got_sent != ref["sent"]:
+                    # same commands in another order: only the known interleaving of direct replies vs spawned jobs is tolerated
+                    pool = {}
+                    for l, k in zip(ref["sent"], ref["kinds"]):
+                        pool.setdefault(l, []).append(k)
+                    lab = [pool[l].pop(0) if pool.get(l) else "?" for l in got_sent]
+                    gd = [l for l, k in zip(got_sent, lab) if k == "direct"]
+                    gs = [l for l, k in zip(got_sent, lab) if k == "spawned"]
+                    rd = [l for l, k in zip(ref["sent"], ref["kinds"]) if k == "direct"]
+                    rs = [l for l, k in zip(ref["sent"], ref["kinds"]) if k == "spawned"]
+                    if gd == rd and gs == rs:
+                        res.violation("order-differs:spawned-jobs-vs-direct-replies:lagging-threaded-pump",
+                                      f"real threaded {kind} gateway: same commands, spawned jobs emitted after direct replies of later lines", case)
+                    else:
+                        res.violation(f"real-threads:{kind}:order-differs", f"real threaded {kind} gateway: emitted order {got_sent!r} vs {ref['sent']!r}", case)
+                res.nontrivial(("real", kind, how, core.h(stream.hex())))
+    finally:
+        faulthandler.cancel_dump_traceback_later()
+    return res
 
 
 def make_stream(rng, version):
@@ -212,6 +273,8 @@ def compare(res, ref, got, what, case, allow_interleave):
 
 
 def run(job):
+    if job.get("kind") == "real-threads":
+        return run_real_threads(job)
     res = Result()
     rng = core.rng_for(ID, job["seed"], job["i"])
     for sn in range(job["streams"]):
@@ -298,10 +361,13 @@ def finish(agg, tier):
                 "and between CR and LF. Reference = an asyncio gateway fed the independently split complete lines. Compared: the "
                 "lines handed to the gateway, the final strict projection, the emitted sequence; for the lagging threaded pump the "
                 "multiset and the direct-reply / spawned-job subsequences; additionally the two flavours are compared with each other when "
-                "the link fails and is re-established at a cut point. distinct = (stream, cut positions); non-trivial when the "
+                "the link fails and is re-established at a cut point; and the same streams are fed in chunks to the REAL threaded serial "
+                "and TCP gateways (pyserial ReaderThread / TCPTransport.run with recv(120), the real poll thread and SyncTransport.send) "
+                "under the deterministic thread simulation. distinct = (stream, cut positions); non-trivial when the "
                 "stream has >= 2 complete lines and a cut falls inside a line.",
         "floors": [("runs_compared", c.get("runs_compared", 0), 15000), ("streams", c.get("streams", 0), 60),
-                   ("seg:special", c.get("seg:special", 0), 300), ("seg:cut", c.get("seg:cut", 0), 5000), ("reconnect_comparisons", c.get("reconnect_comparisons", 0), 500)],
+                   ("seg:special", c.get("seg:special", 0), 300), ("seg:cut", c.get("seg:cut", 0), 5000), ("reconnect_comparisons", c.get("reconnect_comparisons", 0), 500),
+                   ("real_thread_runs", c.get("real_thread_runs", 0), 40)],
         "assumptions": ["time requests are excluded from the streams (their replies differ between runs by construction)",
                         "'pump keeping up' = the poll loop body runs between two lines; 'lagging' = it runs after each chunk"],
         "show": ["streams", "reference_lines", "runs_compared", "seg:cut", "seg:special"],
